@@ -18,7 +18,8 @@ LEVEL = "exploration"
 RULE = (
     "brew() on generated tables: folds 2..6 x 1..3 jointly modelled files x spectrum key of 1..4 columns x "
     "subset_max_train {None, small, ~half, > data} x max_workers {1,2,3,8} with seeded delays inside fit/score x "
-    "learners {linear, svc (decision_function); knn, tree, onetree (predict_proba only)} x text/Parquet. Judged "
+    "learners {linear, svc (decision_function); knn, tree, onetree (predict_proba only)} x text/Parquet x prediction / "
+    "training-read chunk sizes {default, n-1, n/2+1, n/3, 7, n/5}. Judged "
     "from the estimator log: model count, every row scored exactly once, spectrum-closed folds, training rows "
     "disjoint from (and sharing no spectrum with) the rows the same model later scored, cap respected, returned "
     "score = (affine image of) the recorded output of the row's fold model. Non-trivial = spectra with "
@@ -117,11 +118,20 @@ def run_case(case):
         tabs, paths = build(case, rng, d)
         total = sum(len(t["df"]) for t in tabs)
         cap = {None: None, "small": max(60, total // 6), "half": total // 2, "large": total * 2}[case["cap"]]
-        out = pipeline.run_brew(paths, learner=case["learner"], folds=case["folds"], seed=int(rng.integers(1 << 30)),
-                                test_fdr=0.1, train_fdr=0.1, max_workers=case["workers"], subset_max_train=cap,
-                                max_iter=int(rng.integers(1, 4)), delay=0.004 if case["workers"] > 1 else 0.0)
+        # two thirds of the cases stream the prediction / training reads in several chunks (incl. sizes that leave a
+        # short last chunk, in which some fold may be absent)
+        nmin = min(len(t["df"]) for t in tabs)
+        sizes = {}
+        if case["index"] % 3:
+            sizes["CHUNK_SIZE_ROWS_PREDICTION"] = int(rng.choice([nmin - 1, nmin // 2 + 1, nmin // 3, 7, max(2, nmin // 5)]))
+        if case["index"] % 3 == 2:
+            sizes["CHUNK_SIZE_READ_ALL_DATA"] = int(rng.choice([nmin - 1, nmin // 2 + 1, 11]))
+        with core.chunk_sizes(**sizes):
+            out = pipeline.run_brew(paths, learner=case["learner"], folds=case["folds"], seed=int(rng.integers(1 << 30)),
+                                    test_fdr=0.1, train_fdr=0.1, max_workers=case["workers"], subset_max_train=cap,
+                                    max_iter=int(rng.integers(1, 4)), delay=0.004 if case["workers"] > 1 else 0.0)
         extra = dict(folds=case["folds"], nfiles=case["nfiles"], keys=case["keys"], learner=case["learner"],
-                     workers=case["workers"], cap=cap, fmt=case["fmt"], rows=total)
+                     workers=case["workers"], cap=cap, fmt=case["fmt"], rows=total, chunks=sizes)
         log = out.get("log", [])
         res.count("log_events", len(log))
         if out["status"].startswith("crash"):
